@@ -504,7 +504,10 @@ def check_native(st: Stats, nat: Native, spec, name: str, text: str, src, asm: s
                 viol(st, f"C21|abi|callee-saved-clobbered|{reg}{tsuf}",
                      f"{reg} is not restored by the compiled function",
                      {**wit, "reg": reg, "before": f"poison#{i}",
-                      "after": f"poison#{after - sled}" if 0 <= after - sled < 8 else hex(after)}, spec, idx)
+                      "after": (f"poison#{after - sled}" if 0 <= after - sled < 8 else
+                                # partial-register write: keep the witness independent of ASLR
+                                f"poison#{i} with the low {8 if (after ^ (sled + i)) < 2**8 else 16} bits overwritten" if (after ^ (sled + i)) < 2**16 else
+                                hex(after) if after < 2**32 else "other")}, spec, idx)
         if out[7] != out[8]:
             status = "abi-violation" if status == "ok" else status
             viol(st, f"C21|abi|rsp-not-restored{tsuf}", "rsp after the call differs from rsp before the call",
